@@ -1,5 +1,6 @@
 (* Entry points of the executable model used by the correspondence check (extracted). *)
-From RP Require Import Base Stream Target Socks Http Frames Frag.
+From RP Require Import Base Stream Target Socks Http Frames Frag MiluSyntax MiluParser.
+From RP.Gen Require Gen_ladder.
 
 Definition HFUEL : nat := 4000.   (* header lines per HTTP head in generated cases are far fewer *)
 
@@ -22,3 +23,9 @@ Definition x_connect_reply (udp : bool) (cs : list bytes) := run_chunked (connec
 Definition x_read_connect (cs : list bytes) := run_chunked (read_connect parse_v4_sockaddr HFUEL) ([], cs).
 
 Definition x_sfr_all (cs : list bytes) := sfr_all (S (S (length (concat cs)))) [] cs.
+
+(* the milu parser instantiated with the ladder extracted from the source *)
+Definition x_top_rule : String.string := List.last Gen_ladder.op0_alternatives String.EmptyString.
+Definition x_milu_parse (src : bytes) : pres expr :=
+  parse Gen_ladder.levels Gen_ladder.parse2_table Gen_ladder.parse1_table Gen_ladder.unary_tags
+        x_top_rule Gen_ladder.ternary_cond_rule src.
